@@ -529,6 +529,7 @@ def f5_state(check, prog):
                 q.endswith('ImageFormation'):
             theory_like.add(q)
     nchecked = 0
+    modified_args = {}
     loads = {}
     for q in reach:
         fd, m, owner = cg.funcs[q]
@@ -660,6 +661,27 @@ def f5_state(check, prog):
                             '%s (line %d): the next use, in this calculation or the '
                             'next, starts from the updated array' % (
                                 attr_, src_, e['lineno'])))
+        # an argument updated in place (directly or through a local alias) is the
+        # caller's object: harmless while the caller has no further use for it,
+        # a wrong value as soon as the caller hands the same object on
+        if owner in theory_like and fd.name != '__init__':
+            try:
+                itp_ = Interp(prog, max_depth=0)
+                itp_.analyze(q)
+                wsp = writes(itp_)
+            except AnalysisError:
+                wsp = []
+            params_ = [a.arg for a in fd.args.args]
+            for e, st_, rs in wsp:
+                if e['kind'] not in ('augassign', 'setitem', 'mutcall'):
+                    continue
+                if ('fresh',) in rs or ('maybe-fresh',) in rs:
+                    continue
+                for r_ in rs:
+                    if r_[0] == 'param' and r_[1] != selfname and r_[1] in params_:
+                        modified_args.setdefault(q, {}).setdefault(
+                            r_[1], (e.get('target_src') or e.get('method'),
+                                    e['lineno']))
         construct = short
         if bad:
             for n, why in bad:
@@ -684,6 +706,48 @@ def f5_state(check, prog):
                               fail_detail='inew argument is %s' % (
                                   ast.unparse(n.args[0]) if n.args else None))
     check.floor('amncalc call sites', n_am, 1)
+
+
+    # callers that go on using an object after handing it to a method that
+    # updates it in place
+    for q, pars in sorted(modified_args.items()):
+        fdq, mq, ownq = cg.funcs[q]
+        names = [a.arg for a in fdq.args.args]
+        for f in sorted(reach):
+            if not any(c == q for c, ln in cg.edges(f)):
+                continue
+            try:
+                itc = Interp(prog, max_depth=0)
+                itc.analyze(f)
+            except AnalysisError:
+                continue
+            recs = list(itc.calls)
+            for k, c in enumerate(recs):
+                if c['name'] != q:
+                    continue
+                for pname, (src_, line_) in pars.items():
+                    pos_ = names.index(pname)
+                    arg = c['args'][pos_] if pos_ < len(c['args']) else \
+                        dict(c['kwargs']).get(pname)
+                    if arg is None or arg[0] in ('num', 'const'):
+                        continue
+                    later = [c2 for c2 in recs[k + 1:] if any(
+                        x == arg for a in list(c2['args']) + [v for _, v in c2['kwargs']]
+                        for x in subterms(a))]
+                    if later:
+                        check.bad('F5-arguments-not-reused-after-update',
+                                  '%s updates its argument %s in place' % (
+                                      q.replace('holopy.', ''), pname),
+                                  '%s modifies %s in place (%s, line %d) and %s passes '
+                                  'the same object on to %s afterwards: the second '
+                                  'consumer works on the modified values' % (
+                                      q.rpartition('.')[2], pname, src_, line_,
+                                      f.rpartition('.')[2],
+                                      later[0]['name'].rpartition('.')[2]),
+                                  '%s:%d' % (mq.relpath, line_))
+    check.note('methods that update an argument in place',
+               ', '.join('%s(%s)' % (q.rpartition('.')[2], '/'.join(p))
+                         for q, p in sorted(modified_args.items())) or 'none')
 
 
 def local_names(fd):
